@@ -26,3 +26,25 @@ Proof. vm_compute. reflexivity. Qed.
 (* the shape the obligation rejects: marshal, release the lock, then write *)
 Lemma unlock_then_write_rejected : checkpoint_under_lock [bs "marshal"; bs "unlock"; bs "checkpoint"] = false.
 Proof. vm_compute. reflexivity. Qed.
+
+(* State.Unlocker: the lock is released through s.Unlock() (which checkpoints), never through the bare s.unlock(), and the
+   relock function is s.Lock *)
+Definition unlocker_checkpoints (steps : list bytes) : bool :=
+  existsb (beq (bs "Unlock")) steps && negb (existsb (beq (bs "unlock")) steps) && existsb (beq (bs "Lock")) steps.
+
+(* the only callers of the non-checkpointing s.unlock() in overlord/state are Unlock itself (its deferred release after the
+   write) and ReadState (on the fresh, unmodified state it has just decoded); the only caller of s.mu.Unlock() is s.unlock() *)
+Fixpoint blist_eqb (a b : list bytes) : bool :=
+  match a, b with [], [] => true | x :: a', y :: b' => beq x y && blist_eqb a' b' | _, _ => false end.
+Definition release_paths_ok : bool :=
+  blist_eqb lowercase_unlock_callers [bs "ReadState"; bs "State.Unlock"] && blist_eqb state_mu_unlock_callers [bs "State.unlock"].
+
+(* every lock release that can follow a modification checkpoints first *)
+Definition every_release_checkpoints : bool :=
+  checkpoint_under_lock unlock_steps && unlocker_checkpoints unlocker_steps && release_paths_ok.
+
+Lemma every_release_checkpoints_holds : every_release_checkpoints = true.
+Proof. vm_compute. reflexivity. Qed.
+
+Lemma bare_unlocker_rejected : unlocker_checkpoints [bs "unlock"; bs "Lock"] = false.
+Proof. vm_compute. reflexivity. Qed.
